@@ -1,6 +1,7 @@
 //! fqv: bounded exhaustive exploration of fast_qr against a reference model (see /verif/DESIGN.md)
 
 mod core;
+mod explore;
 mod parse;
 mod pool;
 mod props;
@@ -63,6 +64,8 @@ fn main() {
                 println!("digest: {:?}/iter", t.elapsed() / 50);
             }
         }
+        "c19-child" => std::process::exit(props::c19::child_main(&args[2..])),
+        "pristine" => std::process::exit(props::c14::pristine_main()),
         "replay" => {
             if args.len() < 3 {
                 usage();
